@@ -446,20 +446,21 @@ def unapplied (p : PeerSt) : Option (List Route) := (p.next.getD p.cur).prev
 
 /-- **The decision, stated outright.**  When the definition the peer holds never reached the RIB
     (`unapplied p = some x`: a re-establishment is pending for it, or it waits for the loop top), a reload keeps
-    `x` as what the RIB reflects, whatever the configuration's own previous definition `cfgPrev` is:
-    * same session parameters, session down: `replace_reload(x, new routes)` runs now and the link is consumed;
-    * same session parameters, session up: the new definition waits for the loop top with the link `x`;
-    * other session parameters: the new definition waits for the re-establishment with the link `x`. -/
+    `x` as what the RIB may hold, followed by the routes of the definition being replaced (`cfgPrev`: the parser has
+    queued them). With `y = x ++ cfgPrev`:
+    * same session parameters, session down: `replace_reload(y, new routes)` runs now and the link is consumed;
+    * same session parameters, session up: the new definition waits for the loop top with the link `y`;
+    * other session parameters: the new definition waits for the re-establishment with the link `y`. -/
 theorem reload_keeps_unapplied_link (cfgPrev : Option (List Route)) (n : Nbr) (p : PeerSt) (s : Sess) (x : List Route)
     (hx : unapplied p = some x) :
     (p.cur.nbr.sameSession n = true → p.up = false →
       decidePeer cfgPrev n (some p) (some s) =
         ({ p with cur := { nbr := n, prev := none }, next := none },
-         some { s with rib := s.rib.replaceReload x n.plain })) ∧
+         some { s with rib := s.rib.replaceReload (x ++ cfgPrev.getD []) n.plain })) ∧
     (p.cur.nbr.sameSession n = true → p.up = true →
-      (decidePeer cfgPrev n (some p) (some s)).1.next = some { nbr := n, prev := some x }) ∧
+      (decidePeer cfgPrev n (some p) (some s)).1.next = some { nbr := n, prev := some (x ++ cfgPrev.getD []) }) ∧
     (p.cur.nbr.sameSession n = false →
-      (decidePeer cfgPrev n (some p) (some s)).1.next = some { nbr := n, prev := some x } ∧
+      (decidePeer cfgPrev n (some p) (some s)).1.next = some { nbr := n, prev := some (x ++ cfgPrev.getD []) } ∧
       (decidePeer cfgPrev n (some p) (some s)).1.teardown = true) := by
   unfold unapplied at hx
   refine ⟨?_, ?_, ?_⟩
